@@ -32,4 +32,12 @@ def run(rep: Report, repo: Repo, tier: str) -> None:
     from . import fsrules as _fsr
     with rep.isolated():
         _fsr.rule_always_regenerates(rep, repo, "C01-R9")
+    # a documented command in a form the listener accepts always gets its entry (and with it its doc text)
+    with rep.isolated():
+        protocol.rule_accepted_arities(rep, repo, "C01-R10")
+    # the page that carries the doc text is not overwritten by the directory index, and is written as rendered
+    with rep.isolated():
+        _fsr.rule_index_before_pages(rep, repo, "C01-R11")
+    with rep.isolated():
+        writer_rules.rule_file_is_rendered_text(rep, repo, "C01-R12")
 
